@@ -18,6 +18,7 @@ INTERIOR = ("Mutex<", "RwLock<", "Cell<", "RefCell<", "Atomic", "OnceLock<", "On
 
 
 def run(ctx):
+    k6_shared_table_keys(ctx)
     prog = ctx.prog
     bodies = [b for b in prog.prod_bodies() if "::_" not in b.defp]
     # ---------------- K0 inventory ---------------------------------------------------------------
@@ -219,3 +220,20 @@ def run(ctx):
                 ctx.ob("K5", it["path"], f"unsafe-impl-{last_seg(it['trait'])}", loc(it["sp"]), False, f"unsafe impl {last_seg(it['trait'])} for {it['self']}: bypasses the compiler's data-race checking")
     ctx.floor("K5", "trait impls scanned", 60, n_imp)
     ctx.ob("K5", "workspace", "scan", "-", True, f"{n_imp} trait impls scanned", nontrivial=False, ordinal=False)
+
+
+def k6_shared_table_keys(ctx):
+    """K6: a table that several flows of one task share (the client's UDP binding table) must be keyed by everything that tells those
+    flows apart — C02's U2 (binding-key components), re-evaluated here: with a coarser key two flows that run at the same time use each
+    other's outbound and receive each other's answers, i.e. they are no longer independent."""
+    from ..engine import Ctx
+    from . import c02
+    sub = Ctx(ctx.prog, "C02", ctx.tier)
+    c02.run(sub)
+    n = 0
+    for o in sub.obs:
+        if o.rule == "U2":
+            n += 1
+            parts = o.key.split("|")
+            ctx.ob("K6", parts[1], parts[2], o.where, o.ok, o.detail)
+    ctx.floor("K6", "binding-table key obligations (imported from C02 U2)", 3, n)
